@@ -80,9 +80,9 @@ func hashLine(s string) string {
 
 func describeCase(c *EvalCase) interface{} {
 	items := func(its []Item) []interface{} {
-		var out []interface{}
+		out := []interface{}{}
 		for _, it := range its {
-			out = append(out, map[string]interface{}{"key": it.Key, "form": it.Form, "json": it.Doc.Text()})
+			out = append(out, map[string]interface{}{"key": it.Key, "form": it.Form, "json": json.RawMessage(it.Doc.Text())})
 		}
 		return out
 	}
@@ -96,9 +96,10 @@ func describeCase(c *EvalCase) interface{} {
 			}
 		}
 	}
+	// the same layout as corpus/eval-*.json, so a replay file's case can be copied into the corpus by hand
 	return map[string]interface{}{
-		"options": map[string]bool{"secondaryKey": c.Secondary, "logger": c.Logger, "recorder": c.Recorder, "nilLoggerOption": c.NilLoggerOption},
-		"flag":    map[string]interface{}{"form": c.Top.Form, "json": c.Top.Doc.Text()},
+		"secondaryKey": c.Secondary, "logger": c.Logger, "recorder": c.Recorder, "nilLoggerOption": c.NilLoggerOption,
+		"flag":        map[string]interface{}{"key": c.Top.Key, "form": c.Top.Form, "json": json.RawMessage(c.Top.Doc.Text())},
 		"store_flags": items(c.Flags), "store_segments": items(c.Segs),
 		"big_segment_provider": c.Prov, "context": ctxDesc, "context_spec": c.Ctx,
 	}
@@ -135,12 +136,16 @@ func main() {
 		res, err = cmdMicro(*prop, *n, *seed, *driver, *out)
 	case "codec":
 		res, err = cmdCodec(*prop, *n, *seed, *driver, *out)
+	case "forms":
+		res, err = cmdForms(*prop, *n, *seed, *driver, *out)
+	case "perturb":
+		res, err = cmdPerturb(*prop, *n, *seed, *driver, *out)
 	case "history":
 		res, err = cmdHistory(*prop, *n, *seed, *driver, *out)
 	case "race":
 		res, err = cmdRace(*prop, *n, *seed, *secs, *out)
 	case "replay":
-		err = cmdReplay(*replay, *driver, *out)
+		err = cmdReplay(*replay, *driver, *out, *prop)
 		if err != nil {
 			fmt.Fprintln(os.Stderr, "error:", err)
 			os.Exit(3)
